@@ -175,7 +175,8 @@ def build_jobs(tier, seed):
             ('left = "a"\nright = "b"\nstart = ["<", Left(left, right), ">"]\n', 'left = "a"\nright = "b"\nstart = ["<", left << right, ">"]\n'),
             ('left = "a"\nright = "b"\nstart = ["<", Right(left, right), ">"]\n', 'left = "a"\nright = "b"\nstart = ["<", left >> right, ">"]\n'),
             ('opt = Opt("a")\nstart = ["<", opt, ">"]\n', 'opt = "a"?\nstart = ["<", opt, ">"]\n'),
-            ('some = Some("a")\nlist = List("b")\nstart = ["<", some, list, ">"]\n', 'some = "a"+\nlist = "b"*\nstart = ["<", some, list, ">"]\n'),
+            # (no rule called `list`: that name shadows a builtin the runtime reads - the recorded finding of C20, not a matter of spelling)
+            ('some = Some("a")\nfail = List("b")\nstart = ["<", some, fail, ">"]\n', 'some = "a"+\nfail = "b"*\nstart = ["<", some, fail, ">"]\n'),
             ('sep = Sep("a", ",")\nstart = ["<", sep, ">"]\n', 'sep = "a" // ","\nstart = ["<", sep, ">"]\n'),
             ('seq = Seq("a", "b")\nchoice = Choice("a", "b")\nstart = ["<", seq | choice, ">"]\n', 'seq = ["a", "b"]\nchoice = "a" | "b"\nstart = ["<", seq | choice, ">"]\n'),
             ('skip = Skip("a")\nexpect = Expect("b")\nstart = ["<", skip, expect, "b", ">"]\n', 'skip = Skip("a")\nexpect = Expect("b")\nstart = ["<", skip, expect, "b", ">"]\n'),
